@@ -16,6 +16,7 @@ DimsAll    == {<<640, 480>>, <<1, 1>>, <<65535, 65535>>, <<1920, 1080>>}
 DimsTwo    == {<<640, 480>>, <<65535, 1>>}
 CtorsAll   == {"buf", "memseek", "file", "filewith"}
 DeltasPts  == {1, 89, 90, 3000, 3003, 90000, 262144}
+DeltasPtsT == {89, 90, 3000, 262144}
 \* simulation (vector generation)
 MtusSim    == {12, 13, 20, 64, 200, 1188, 1200}
 DeltasSim  == {1, 90, 1500, 3000, 3003, 6000}
